@@ -1114,23 +1114,22 @@ def fixSet (d : List Fix) (var value : Str) : List Fix :=
       | fuel + 1 => if d.any (·.id == i) then free fuel (i + 1) else i
     d ++ [{ var, value, id := free (d.length + 1) 1 }]
 
+/-- first pass of `EntityFixup.__init__`: values whose index was not seen yet / the others. -/
+def fixSplit (seen : List Int) : List Fix → List Fix × List Fix
+  | [] => ([], [])
+  | f :: r =>
+    if seen.contains f.id then ((fixSplit seen r).1, f :: (fixSplit seen r).2)
+    else (f :: (fixSplit (f.id :: seen) r).1, (fixSplit (f.id :: seen) r).2)
+
+/-- `self._fixup[fix.var.casefold()] = fix`. -/
+def fixPut (d : List Fix) (f : Fix) : List Fix :=
+  if d.any (fun g => lower g.var == lower f.var) then d.map fun g => if lower g.var == lower f.var then f else g
+  else d ++ [f]
+
 /-- `EntityFixup.__init__`: first value of every index kept (stored under the folded variable
 name, a repeated name replaces the stored value in place), the others re-added by `__setitem__`. -/
 def fixInit (l : List Fix) : List Fix :=
-  let rec split (seen : List Int) : List Fix → List Fix × List Fix
-    | [] => ([], [])
-    | f :: r =>
-      if seen.contains f.id then
-        let (a, b) := split seen r
-        (a, f :: b)
-      else
-        let (a, b) := split (f.id :: seen) r
-        (f :: a, b)
-  let (main, extra) := split [] l
-  let put (d : List Fix) (f : Fix) : List Fix :=
-    if d.any (fun g => lower g.var == lower f.var) then d.map fun g => if lower g.var == lower f.var then f else g
-    else d ++ [f]
-  extra.foldl (fun d f => fixSet d f.var f.value) (main.foldl put [])
+  ((fixSplit [] l).2).foldl (fun d f => fixSet d f.var f.value) (((fixSplit [] l).1).foldl fixPut [])
 
 structure EntSt where
   id : Int := -1
